@@ -47,12 +47,14 @@ def gen_scenario(rng):
     return ops
 
 
-def run_go(exe, ops, d):
+def run_go(exe, ops, d, json_mode=False):
     """runs ops in as many processes as needed: a process dies at every crashing PANIC entry"""
     outp = os.path.join(d, "go.out")
     if os.path.exists(outp):
         os.remove(outp)
     env = {"VERIF_TMP": d, "TMPDIR": d, "ROBUSTIRC_TESTING_ENABLE_PANIC_COMMAND": "1"}
+    if json_mode:
+        env["VERIF_JSON"] = "1"
     lines, crashes, rest, first = [], [], list(ops), True
     guard = 0
     while rest and guard < 40:
@@ -107,9 +109,13 @@ def check(run):
              "status", "commit 6 %d p" % (T0 + 6 * S), "status", "types", "marker 1", "dump"]]
     scen += [gen_scenario(run.rng) for _ in range(nscen)]
     bad, total_crashes, evals = None, 0, 0
-    for sc in scen:
+    modes = {}
+    for k, sc in enumerate(scen):
         d = vlib.workdir("c07")
-        gl, crashes, err = run_go(exe, sc, d)
+        # every third scenario runs with JSON-encoded stores (the tombstone is always written as protobuf)
+        jm = (k % 3 == 2)
+        modes[id(sc)] = jm
+        gl, crashes, err = run_go(exe, sc, d, json_mode=jm)
         shutil.rmtree(d, ignore_errors=True)
         evals += len(sc)
         total_crashes += len(crashes)
@@ -165,7 +171,7 @@ def check(run):
                     bad = bad or (sc, "marker", "LastPostMessage is %s, the skipped entry has client message id %d" % (g, want))
     if bad:
         sc, sig, why = bad
-        run.violation("oracle:" + sig, why, {"kind": "death", "ops": sc, "why": why}, True)
+        run.violation("oracle:" + sig, why, {"kind": "death", "ops": sc, "json_stores": modes.get(id(sc), False), "why": why}, True)
     # bookkeeping correspondence of the same schedules (crash = restart in the model)
     mops = []
     for sc in scen:
@@ -193,7 +199,7 @@ def replay(run, path):
     ops = r.get("replay", {}).get("ops", [])
     ok, exe, out = vlib.build_harness("fsm", "", C02.FILES, extra_overlay=irc_run.EXTRA)
     d = vlib.workdir("c07r")
-    gl, crashes, err = run_go(exe, ops, d)
+    gl, crashes, err = run_go(exe, ops, d, json_mode=bool(r.get("replay", {}).get("json_stores")))
     shutil.rmtree(d, ignore_errors=True)
     for o, g in zip(ops, gl):
         print("%-40s %s" % (o[:40], g[:200]))
